@@ -233,6 +233,7 @@ def stepCheck (mode : Sched) (σ : Scan) (e : SEv) (outs : List SOut) : Scan × 
   let pre : Scan × List Viol := preCheck σ e outs
   let wasGb := σ.gb
   let wasJoined := σ.welcomed
+  let wasEnded := σ.ended
   -- the observations, in order
   let r := scanOuts pre.1 outs
   let σ1 := r.1
@@ -252,7 +253,8 @@ def stepCheck (mode : Sched) (σ : Scan) (e : SEv) (outs : List SOut) : Scan × 
     match e with
     | .closed _ => stillPending σ2
     | .msg .goodbye beh => if wasJoined && (beh.headD {}).dflt then stillPending σ2 else []
-    | .msg .abort beh => if !wasJoined && (beh.headD {}).dflt then stillPending σ2 else []
+    -- (an ABORT after the end is not handled at all: it is a protocol violation, see `gate`)
+    | .msg .abort beh => if !wasJoined && !wasEnded && (beh.headD {}).dflt then stillPending σ2 else []
     | _ => []
   let σ3 : Scan := match e with | .closed _ => { σ2 with up := false, welcomed := false } | _ => σ2
   let vReply : List Viol :=
